@@ -30,7 +30,7 @@ ASSUMPTIONS = [
   "documented configuration ValueErrors (frames syntaxes without fps, HH:MM:SS:FF with non-integer fps) are not failures",
 ]
 REQUIRED = ["roundtrips", "mode:representable", "mode:free", "cfg:none", "cfg:clock_time", "cfg:frames", "cfg:clock_time_with_frames",
-            "snapshots:compared", "class:ruby", "class:element-lang", "class:preserve-space", "class:times-beyond-24h", "class:single-px"]
+            "snapshots:compared", "class:ruby", "class:element-lang", "class:preserve-space", "class:times-beyond-24h", "class:single-px", "class:space-default-under-preserve"]
 SHARD_TIMEOUT = {"quick": 900, "thorough": 7200}
 N = {"quick": 36, "thorough": 2400}
 
@@ -424,6 +424,30 @@ def single_px(adoc, rng):
   return True
 
 
+def space_switch(adoc, rng):
+  """Directed class: xml:space switched back to default below a preserving ancestor (and the reverse), on text with collapsible runs."""
+  if adoc.body is None:
+    return False
+  ps = [el for el in adoc.body.walk() if el.kind == "P" and any(c.kind == "Span" for c in el.children)]
+  if not ps:
+    return False
+  p_ = rng.choice(ps)
+  outer, inner = rng.choice([("preserve", "default"), ("preserve", "default"), ("default", "preserve")])
+  p_.space = outer
+  hit = False
+  for c in p_.children:
+    if c.kind != "Span":
+      continue
+    c.space = inner if rng.random() < 0.7 else outer
+    for t in c.children:
+      if t.kind == "Text":
+        t.text = "w1   w2  " + (t.text or "") + " \n  w3"
+        hit = hit or c.space == inner
+      elif t.kind == "Span":
+        t.space = rng.choice([inner, outer])
+  return hit
+
+
 def no_empty_decoration_steps(adoc):
   """TextDecorationType(None, None, None) has no TTML syntax (tts:textDecoration needs at least one token): as a specified value it is
   equivalent to no attribute, but as the value of an animation step it would have to override the specified value with 'nothing'.
@@ -452,6 +476,8 @@ def run(ctx, params):
       ctx.count("class:times-beyond-24h")
     if i % 9 == 4 and single_px(adoc0, rng):
       ctx.count("class:single-px")
+    if i % 9 == 7 and space_switch(adoc0, rng):
+      ctx.count("class:space-default-under-preserve")
     cfg_name, needs = CFGS[(params["shard"] + i) % 4]
     fps = rng.choice(FPS) if needs else None
     if cfg_name == "clock_time_with_frames" and fps.denominator != 1:
